@@ -206,7 +206,8 @@ def generate(rng, tier):
                     fault = {"kind": "open-fails", "frac": 0.0}
             ops.append({"op": "save", "mesh": rng.choice(slots), "path": pid,
                         "variant": v, "with_data": rng.random() < 0.5,
-                        "fault": fault})
+                        "fault": fault,
+                        "encode_point_data": rng.random() < 0.2})
         elif r < 0.85 and paths:
             pid, v = rng.choice(paths)
             o = {"op": "load", "path": pid, "variant": v}
@@ -338,8 +339,11 @@ class NoFd:
         return False
 
 
-def do_save(m, path, variant, pd, cd):
+def do_save(m, path, variant, pd, cd, enc_pd=False):
     suffix, kw, _ = VARIANTS[variant]
+    if enc_pd and kw is not None:
+        # the tags additionally written as point data (a documented option)
+        kw = dict(kw, encode_point_data=True)
     if variant == "json":
         from skfem.io.json import to_file
         to_file(m, path)
@@ -502,7 +506,8 @@ def _save(o, W, model, scratch, probes, faults, keys_nt, bump):
             do_save(m, dry, variant,
                     None if pd is None else {k: v.copy() for k, v in pd.items()},
                     None if cd is None else {k: [a.copy() for a in v]
-                                             for k, v in cd.items()})
+                                             for k, v in cd.items()},
+                    o.get("encode_point_data", False))
             size = os.path.getsize(dry)
         finally:
             if os.path.exists(dry):
@@ -510,7 +515,8 @@ def _save(o, W, model, scratch, probes, faults, keys_nt, bump):
         limit = int(fault["frac"] * size)
         try:
             with (DiskFull(limit) if fault["kind"] == "disk-full" else NoFd()):
-                do_save(m, path, variant, pd, cd)
+                do_save(m, path, variant, pd, cd,
+                        o.get("encode_point_data", False))
         except Exception as e:
             raised = e
         if raised is not None and fault["kind"] == "disk-full":
@@ -524,7 +530,8 @@ def _save(o, W, model, scratch, probes, faults, keys_nt, bump):
             bump(probes, "fault-armed-but-save-returned-normally")
     else:
         try:
-            do_save(m, path, variant, pd, cd)
+            do_save(m, path, variant, pd, cd,
+                    o.get("encode_point_data", False))
         except Exception as e:
             raised = e
     after = mesh_digest(m)
